@@ -845,6 +845,7 @@ func genScript(r *gen.Rand, flavour int) []step {
 	var steps []step
 	next := 0
 	eager := r.Chance(1, 2) // enqueue early, so that commands wait behind one another
+	dupSalt := r.Intn(3)
 	pc := 100
 	newP := func(errReply bool) int {
 		pc += 2
@@ -896,20 +897,34 @@ func genScript(r *gen.Rand, flavour int) []step {
 		}
 		if k := p.cur; k != nil {
 			var waiting []int
+			// Workers of a duplicated target hand their results to the same map slot in an
+			// order the harness cannot observe; they are therefore all driven to the same kind
+			// of result (all send failures or all time-outs, decided per command and target),
+			// and replies to such a target are only generated when they will be dropped.
+			count := map[int]int{}
+			for _, t := range k.targets {
+				count[t]++
+			}
 			for i := range k.ws {
 				i := i
 				t := k.targets[i]
+				dup := count[t] > 1
+				dupFail := dup && (k.id*31+t*17+dupSalt)%3 == 0
 				switch k.ws[i].phase {
 				case phSend:
-					add(6, func() { push(step{Op: "sendok", Cmd: k.id, W: i}) })
-					add(2, func() { push(step{Op: "senderr", Cmd: k.id, W: i}) })
-					if _, has := k.pending[t]; has {
+					if !dup || !dupFail {
+						add(6, func() { push(step{Op: "sendok", Cmd: k.id, W: i}) })
+					}
+					if !dup || dupFail {
+						add(2, func() { push(step{Op: "senderr", Cmd: k.id, W: i}) })
+					}
+					if _, has := k.pending[t]; has && !dup {
 						add(3, func() { push(step{Op: "deliver", Cmd: k.id, T: t, P: newP(r.Chance(1, 4))}) })
 					}
 				case phWait:
 					if !k.ws[i].taken {
 						waiting = append(waiting, i)
-						if _, has := k.pending[t]; has {
+						if _, has := k.pending[t]; has && !dup {
 							add(6, func() { push(step{Op: "deliver", Cmd: k.id, T: t, P: newP(r.Chance(1, 4))}) })
 						}
 					}
